@@ -122,7 +122,8 @@ Definition canon (l : list term) : list term := snd (canon_l [] l).
 Definition goal := (str * list term)%type.
 Definition clause := (list term * list goal)%type.           (* head arguments, body goals *)
 Inductive dbop := BAssert (append : bool) | BRetract | BRetractAll.
-Inductive defn := DClauses (cls : list clause) | DDb (b : dbop) | DOther.  (* DOther: a builtin the model does not run *)
+Inductive metaop := MNeq | MCall | MOnce | MFindall.    (* builtin_neq, YP.call, YP.once, YP.findall *)
+Inductive defn := DClauses (cls : list clause) | DDb (b : dbop) | DMeta (b : metaop) | DOther.  (* DOther: a definition the model does not run *)
 
 Definition gmax (g : goal) : nat := lmax (snd g).
 Definition clmax (c : clause) : nat := Nat.max (lmax (fst c)) (fold_right Nat.max 0 (map gmax (snd c))).
@@ -180,10 +181,10 @@ Definition reserved_names : list str :=
 (* _set_builtin_predicates: '=' is  X = X ; the four database builtins; the others are outside this model *)
 Definition builtin_ctx : list (str * list defn) :=
   [ (key_fixed (of_string "=") 2, [DClauses [ ([TVar 0; TVar 0], []) ] ]);
-    (key_fixed [92%N; 61%N] 2, [DOther]);
-    (key_fixed (of_string "findall") 3, [DOther]);
-    (key_var (of_string "call"), [DOther]);
-    (key_fixed (of_string "once") 1, [DOther]);
+    (key_fixed [92%N; 61%N] 2, [DMeta MNeq]);
+    (key_fixed (of_string "findall") 3, [DMeta MFindall]);
+    (key_var (of_string "call"), [DMeta MCall]);
+    (key_fixed (of_string "once") 1, [DMeta MOnce]);
     (key_fixed (of_string "assertz") 1, [DDb (BAssert true)]);
     (key_fixed (of_string "asserta") 1, [DDb (BAssert false)]);
     (key_fixed (of_string "retract") 1, [DDb BRetract]);
@@ -195,7 +196,12 @@ Inductive frame :=      (* tr: the bindings this query has made on the path to t
 | FFact (tr : store) (cnt : nat) (args : list term) (f : list term) (rest : list goal) (* next clause of a fact snapshot *)
 | FFun (tr : store) (cnt : nat) (fn : option (list defn)) (args : list term) (rest : list goal) (* after the facts: the function that was looked up when the call started *)
 | FClause (tr : store) (cnt : nat) (args : list term) (cl : clause) (rest : list goal) (* next clause of a called function *)
-| FRet (tr : store) (cnt : nat) (nm : str) (args : list term) (f : fact) (rest : list goal). (* YP.retract: next Answer of its snapshot *)
+| FRet (tr : store) (cnt : nat) (nm : str) (args : list term) (f : fact) (rest : list goal) (* YP.retract: next Answer of its snapshot *)
+| FBar                                                   (* YP.once: everything above belongs to the goal of the once *)
+| FNeg (tr : store) (cnt : nat) (rest : list goal)       (* builtin_neq: reached when  query('=', [X, Y])  had no solution *)
+| FColl (tr : store) (cnt : nat) (bag : term) (acc : list term) (nc : nat) (rest : list goal).
+   (* YP.findall: reached when the goal is exhausted; acc = the copies of the template made so far (newest first), nc = the
+      cells these copies use: the i-th new variable of the next copy is cell  fresh (cnt + nc + i)  of this generator *)
 
 Record cursor := mkcur {
   cown : nat;             (* number of the query: names the cells it allocates and the facts it asserts *)
@@ -215,7 +221,7 @@ Record mstate := mkms { mdb : db; mnf : nat; mfr : list frame; mlog : list ev }.
 Inductive sres :=
 | SAns (tr : store) (m : mstate)
 | SDone (m : mstate)
-| SErr (code : nat) (m : mstate). (* 0 search fuel, 1 unify fuel, 2/9 cyclic (unspecified), 3 builtin outside the model *)
+| SErr (code : nat) (m : mstate). (* 0 search fuel, 1 unify fuel, 2/9 cyclic (unspecified), 3 definition outside the model, 4 call of a term that is not callable (the code raises) *)
 
 Definition UF : nat := 300.     (* fuel handed to Unify.unify_arrays *)
 
@@ -243,6 +249,85 @@ Fixpoint retract_list (h : store) (fresh : nat -> nat) (args : list term) (fs : 
   end.
 
 Inductive kres := KGo (m : mstate) | KAns (tr : store) (m : mstate) | KDone | KErr (code : nat) (m : mstate).
+
+(* ---- the meta-call builtins  \= /2, call/N, once/1, findall/3  (engine.py: builtin_neq, YP.call, YP.once, YP.findall).
+   They run a goal through self.query and do something when it succeeds: the goal is put on the goal list followed by a
+   CONTROL GOAL (a name no script can contain: one code point 0, 1 or 2), and a frame below the goal's alternatives says where
+   the construct began:
+     once(G)        G, cut_mark  above FBar:  cut_mark drops the remaining alternatives of G (down to and including the nearest
+                    FBar = the `break` of YP.once, which closes the generator of the goal) and goes on with the body;
+     X \= Y         '='(X, Y), neg_mark  above FNeg:  neg_mark drops everything down to and including the nearest FNeg and
+                    fails (the bindings of the solution are undone: they live in the dropped frame); FNeg on top of the stack
+                    = no solution = succeed once with the bindings of the call;
+     findall(T,G,B) G, coll_mark(T)  above FColl:  coll_mark puts copy_term(T) (full dereference, new variables) into the nearest
+                    FColl and fails; FColl on top = G exhausted: unify(B, makelist(copies)).
+   A construct has left the stack before the control goal of an enclosing construct can run, so the nearest frame of the kind
+   is the right one.  call(G, A..) = self.query(name of G, args of G ++ A..).  A goal that is not callable makes YP.call raise
+   (UnboundLocalError): model error 4. *)
+Inductive mres := MGo (fr : list frame) | MErr (code : nat).
+Definition lift_m (m : mstate) (x : mres) : kres :=
+  match x with MGo fr => KGo (mkms (mdb m) (mnf m) fr (mlog m)) | MErr k => KErr k m end.
+
+Definition cut_mark : str := [0%N].
+Definition neg_mark : str := [1%N].
+Definition coll_mark : str := [2%N].
+Definition is_bar (f : frame) : bool := match f with FBar => true | _ => false end.
+Definition is_neg (f : frame) : bool := match f with FNeg _ _ _ => true | _ => false end.
+Fixpoint cut_to (p : frame -> bool) (r : list frame) : list frame :=
+  match r with [] => [] | f :: r' => if p f then r' else cut_to p r' end.
+(* results.append(copy_term(template, {})) *)
+Fixpoint collect_into (fresh : nat -> nat) (t' : term) (r : list frame) : list frame :=
+  match r with
+  | [] => []
+  | FColl tr cnt bag acc nc gs :: r' =>
+      let c := canon [t'] in
+      FColl tr cnt bag (map (rn (fun i => fresh (cnt + nc + i))) c ++ acc) (nc + lmax c) gs :: r'
+  | f :: r' => f :: collect_into fresh t' r'
+  end.
+(* YP.makelist *)
+Fixpoint mk_list (l : list term) : term :=
+  match l with [] => TAtom (of_string "[]") | x :: r => TFun (of_string ".") [x; mk_list r] end.
+
+Definition ctl_goal (h0 : store) (fresh : nat -> nat) (tr : store) (cnt : nat) (nm : str) (args : list term)
+    (gs : list goal) (r : list frame) : option mres :=
+  if str_eqb nm cut_mark then Some (MGo (FGoals tr cnt gs :: cut_to is_bar r))
+  else if str_eqb nm neg_mark then Some (MGo (cut_to is_neg r))
+  else if str_eqb nm coll_mark then
+    Some (MGo (match args with [t] => collect_into fresh (den2 (tr ++ h0) t) r | _ => r end))
+  else None.
+
+Definition metastep (h0 : store) (b : metaop) (tr : store) (cnt : nat) (args : list term) (gs : list goal)
+    (r : list frame) : mres :=
+  match b, args with
+  | MNeq, [x; y] => MGo (FGoals tr cnt [(of_string "=", [x; y]); (neg_mark, [])] :: FNeg tr cnt gs :: r)
+  | MCall, g :: extra =>
+      match callable (den2 (tr ++ h0) g) with
+      | Some (nm, fa) => MGo (FGoals tr cnt ((nm, fa ++ extra) :: gs) :: r)
+      | None => MErr 4
+      end
+  | MOnce, [g] =>
+      match callable (den2 (tr ++ h0) g) with
+      | Some (nm, fa) => MGo (FGoals tr cnt ((nm, fa) :: (cut_mark, []) :: gs) :: FBar :: r)
+      | None => MErr 4
+      end
+  | MFindall, [t; g; bag] =>
+      match callable (den2 (tr ++ h0) g) with
+      | Some (nm, fa) => MGo (FGoals tr cnt [(nm, fa); (coll_mark, [t])] :: FColl tr cnt bag [] 0 gs :: r)
+      | None => MErr 4
+      end
+  | _, _ => MErr 3
+  end.
+
+Definition coll_finish (h0 : store) (tr : store) (cnt : nat) (bag : term) (acc : list term) (nc : nat)
+    (gs : list goal) (r : list frame) : mres :=
+  match unify_arrays2 UF (tr ++ h0) [bag] [mk_list (rev acc)] with
+  | UOk s' => MGo (FGoals (strip s' h0) (cnt + nc) gs :: r)
+  | UFail => MGo r
+  | UOof => MErr 1
+  | UCyc => MErr 2
+  end.
+Definition meta_builtin (ds : list defn) : option metaop :=
+  match ds with [DMeta b] => Some b | _ => None end.
 
 Definition is_fun (t : term) : bool := match t with TFun _ _ => true | _ => false end.
 
@@ -290,10 +375,14 @@ Definition sstep (h0 : store) (fresh newid : nat -> nat) (m : mstate) : kres :=
   | [] => KDone
   | FGoals tr cnt [] :: r => KAns tr (mkms d (mnf m) r (mlog m))
   | FGoals tr cnt ((nm, args) :: gs) :: r =>
+      match ctl_goal h0 fresh tr cnt nm args gs r with
+      | Some x => lift_m m x
+      | None =>
       KGo (mkms d (mnf m)
                 (map (fun f => FFact tr cnt args (fargs f) gs) (find_facts d nm (length args))
                    ++ FFun tr cnt (find_function d nm (length args)) args gs :: r)
                 (mkev false true (nm, length args) :: mlog m))
+      end
   | FFact tr cnt args f gs :: r =>
       let f' := map (rn (fun i => fresh (cnt + i))) f in
       match unify_arrays2 UF (tr ++ h0) args f' with
@@ -306,6 +395,9 @@ Definition sstep (h0 : store) (fresh newid : nat -> nat) (m : mstate) : kres :=
       match fn with
       | None => KGo (mkms d (mnf m) r (mlog m))
       | Some ds =>
+          match meta_builtin ds with
+          | Some mb => lift_m m (metastep h0 mb tr cnt args gs r)
+          | None =>
           match db_builtin ds with
           | Some b =>
               match args with
@@ -317,6 +409,7 @@ Definition sstep (h0 : store) (fresh newid : nat -> nat) (m : mstate) : kres :=
               | None => KErr 3 m
               | Some cls => KGo (mkms d (mnf m) (map (fun c => FClause tr cnt args c gs) cls ++ r) (mlog m))
               end
+          end
           end
       end
   | FClause tr cnt args cl gs :: r =>
@@ -341,6 +434,9 @@ Definition sstep (h0 : store) (fresh newid : nat -> nat) (m : mstate) : kres :=
       | UOof => KErr 1 m
       | UCyc => KErr 2 m
       end
+  | FBar :: r => lift_m m (MGo r)
+  | FNeg tr cnt gs :: r => lift_m m (MGo (FGoals tr cnt gs :: r))
+  | FColl tr cnt bag acc nc gs :: r => lift_m m (coll_finish h0 tr cnt bag acc nc gs r)
   end.
 
 (* resume the generator: depth first, until the next yield *)
